@@ -153,6 +153,9 @@ def run_case(case, ctx):
                 with open(p, "wb") as f:
                     f.write(data)
                 src_bytes[p] = data
+                if vname in ("again", "dotted", "mixed"):
+                    # the same bytes with another modification date (more than a year apart): an archive does not depend on it
+                    os.utime(p, (1000000000 + 86400 * 400 * (k_ % 3), 1000000000 + 86400 * 400 * (k_ % 3)))
                 args.append(arg)
                 fs.append([text_points(rp), data])
             arch = f"out_{vname}{ext}"
